@@ -81,6 +81,11 @@ struct HList : public HashTable<Key_T, HLItem_T<Key_T>> {
     using BaseT::Storage;
 
     void operator+=(HList &&src) {
+        if (this == &src) {
+            // Merging a table into itself changes nothing (and growing it would release what is being read).
+            return;
+        }
+
         const SizeT  n_size   = (Size() + src.Size());
         HItem       *src_item = src.Storage();
         const HItem *src_end  = (src_item + src.Size());
@@ -112,6 +117,11 @@ struct HList : public HashTable<Key_T, HLItem_T<Key_T>> {
     }
 
     void operator+=(const HList &src) {
+        if (this == &src) {
+            // Merging a table into itself changes nothing (and growing it would release what is being read).
+            return;
+        }
+
         const SizeT  n_size   = (Size() + src.Size());
         const HItem *src_item = src.First();
         const HItem *src_end  = src_item + src.Size();
